@@ -46,8 +46,10 @@ func (p *optionsParser) parseFrom(file ast.File) {
 	}
 
 	seen := make(map[string]int)
+	keys := make(map[string]ast.Identifier)
 	for _, opt := range file.Options() {
 		name := opt.Key().Text()
+		keys[name] = opt.Key()
 		if line, ok := seen[name]; ok {
 			p.Errorf(opt.Key(), "reinitialization of '%v', previously declared on line %v", name, line)
 		}
@@ -168,6 +170,10 @@ func (p *optionsParser) parseFrom(file ast.File) {
 		default:
 			p.Errorf(opt.Key(), "unknown option '%v'", name)
 		}
+	}
+	if opts.TokenStream && !opts.EventBased && p.target == "go" {
+		// The token stream reports tokens to a listener, which exists in event-based parsers only.
+		p.Errorf(keys["tokenStream"], "tokenStream requires eventBased = true")
 	}
 }
 
